@@ -43,7 +43,7 @@ Definition step_d32 (md : mode) (s : st) (a : action) : st :=
   end.
 
 Definition stalled (md : mode) (s : st) : Prop :=
-  closed s = false /\ reg s = true /\ pw s = WNone /\ owed s = 0 /\ 0 < q s /\ 0 < room s /\ deliverable_out md s false = false.
+  closed s = false /\ reg s = true /\ pw s = WNone /\ prd s = false /\ owed s = 0 /\ 0 < q s /\ 0 < room s /\ deliverable_out md s false = false.
 
 Lemma d3_witness :
   stalled LT (fold_left (step_d3 LT) [AppWrite 5; Register; PeerRead 1] (init 2)).
@@ -93,7 +93,7 @@ Definition step_d38 (s : st) (a : action) : st :=
   end.
 
 Definition d38_history : list action :=
-  [RegisterDialNow; AppWrite 2; Deliver true false; Rearm; PeerRead 2; AppWrite 5; PeerRead 2].
+  [RegisterDialNow; AppWrite 2; Deliver true false; ReadDispatch false; Rearm; PeerRead 2; AppWrite 5; PeerRead 2].
 
 Lemma d38_witness : stalled ETOS (fold_left step_d38 d38_history (init 2)).
 Proof. vm_compute. repeat split; auto; lia. Qed.
